@@ -299,14 +299,19 @@ class SimpleARTMAP(BaseARTMAP):
         """
         SimpleARTMAP.validate_data(self, X, y)
         if not hasattr(self, "labels_"):
-            self.labels_ = np.array(y)
+            labels = np.array(y)
+            # the classes seen so far, as fit records them
+            self.classes_ = unique_labels(labels)
+            self.labels_ = labels
             self.module_a.W = []
             self.module_a.labels_ = np.zeros((X.shape[0],), dtype=int)
             j = 0
         else:
             j = len(self.labels_)
             # concatenation keeps every target exact (a wider dtype in a later batch)
-            self.labels_ = np.concatenate([self.labels_, np.asarray(y)])
+            labels = np.concatenate([self.labels_, np.asarray(y)])
+            self.classes_ = unique_labels(labels)
+            self.labels_ = labels
             self.module_a.labels_ = np.pad(
                 self.module_a.labels_, [(0, X.shape[0])], mode="constant"
             )
